@@ -142,4 +142,87 @@ func CSVDatabaseResolved returns (err)
     invariant @inv r == at(pre2, r) && r.output != nil && since(pre2, BufStep(r.output)) && bufSticky[r.output] == at(pre2, bufSticky[r.output]) && bufSink[r.output] == out && nl == at(pre2, nl) && mapval(nl) == at(pre2, mapval(nl)) && (forall k string :: {nl[k]} k in nl ==> nl[k] != nil)
     invariant @keys forall p int :: {keys[p]} 0 <= p && p < len(keys) ==> keys[p] in nl
   }
+
+// ---------------------------------------------------------------------------------------------
+// command wiring (C16, C06, C15, C11): the Action closures hand the command exactly the loaded options - the opened
+// files in the order the command expects them (book first, log second) and every part of the configuration equal to
+// the corresponding part of the options, so the settings options.Load resolved are the ones the report runs with.
+// ---------------------------------------------------------------------------------------------
+type csv.CSVLogCmd(logStream, c) returns (err)
+  modifies *
+  modifies ghost(cbLen, cbErr, cbNode, cbStop, cbRet, cbLineNo, cbLine, cbHeader, cbElems, cbNElems, scRd, scPos, privLo, evOf, accKey, accP, accN, accH, bufSink, bufSticky, sinkFailed, sinkPend, prLen, prSink, prArg, prArgs, csvLen, csvW, csvN, csvRow, tnodes, tdepth, tmax, tmapOf, jlen, tvLen, tv, tseg, tvSet, procLen, procTime, procSrc, lastOpen, cfgRd)
+
+type csv.CSVDatabaseCmd(dbStream, cdc) returns (err)
+  modifies *
+  modifies ghost(cbLen, cbErr, cbNode, cbStop, cbRet, cbLineNo, cbLine, cbHeader, cbElems, cbNElems, scRd, scPos, privLo, evOf, accKey, accP, accN, accH, bufSink, bufSticky, sinkFailed, sinkPend, prLen, prSink, prArg, prArgs, csvLen, csvW, csvN, csvRow, tnodes, tdepth, tmax, tmapOf, jlen, tvLen, tv, tseg, tvSet, procLen, procTime, procSrc, lastOpen, cfgRd)
+
+type csv.withFileReaders(fileNames, cb) returns (err)
+  modifies *
+  modifies ghost(cbLen, cbErr, cbNode, cbStop, cbRet, cbLineNo, cbLine, cbHeader, cbElems, cbNElems, scRd, scPos, privLo, evOf, accKey, accP, accN, accH, bufSink, bufSticky, sinkFailed, sinkPend, prLen, prSink, prArg, prArgs, csvLen, csvW, csvN, csvRow, tnodes, tdepth, tmax, tmapOf, jlen, tvLen, tv, tseg, tvSet, procLen, procTime, procSrc, lastOpen, cfgRd)
+
+func NewCSVLogCommand$1$1$1 returns (err)
+  props C16 C06 C13 C08
+  requires @streams len(streams) == 1 && csvLog != nil
+  dyncall 1 csv.CSVLogCmd
+  modifies *
+  modifies ghost(cbLen, cbErr, cbNode, cbStop, cbRet, cbLineNo, cbLine, cbHeader, cbElems, cbNElems, scRd, scPos, privLo, evOf, accKey, accP, accN, accH, bufSink, bufSticky, sinkFailed, sinkPend, prLen, prSink, prArg, prArgs, csvLen, csvW, csvN, csvRow, tnodes, tdepth, tmax, tmapOf, jlen, tvLen, tv, tseg, tvSet, procLen, procTime, procSrc, lastOpen, cfgRd)
+  ghost before dyncall 1 {
+    assert @wiring [C16 C06 C13] #arg0 == streams[0] && #arg1 == cfg
+  }
+
+// csv log: dates are exported in the ISO layout whatever --date-format says (C13); the rest follows the options
+func NewCSVLogCommand$1$1 returns (err)
+  props C16 C06 C13 C08
+  requires @loaded o != nil && cu.WithFileReaders != nil
+  dyncall 1 csv.withFileReaders
+  modifies *
+  modifies ghost(cbLen, cbErr, cbNode, cbStop, cbRet, cbLineNo, cbLine, cbHeader, cbElems, cbNElems, scRd, scPos, privLo, evOf, accKey, accP, accN, accH, bufSink, bufSticky, sinkFailed, sinkPend, prLen, prSink, prArg, prArgs, csvLen, csvW, csvN, csvRow, tnodes, tdepth, tmax, tmapOf, jlen, tvLen, tv, tseg, tvSet, procLen, procTime, procSrc, lastOpen, cfgRd)
+  ghost before dyncall 1 {
+    assert @files [C16] len(#arg0) == 1 && #arg0[0] == o.GlobalConfig.LogFileName
+    assert @iso-dates [C13] cfg.ReporterConfig.OutputTimeFormat == "2006-01-02" && cfg.ReporterConfig.CSVSeparator == 44
+    assert @wiring [C16 C06 C13] cfg.DateFormat == o.GlobalConfig.DateFormat && cfg.ParserConfig == o.ParserConfig && cfg.FilterConfig == o.FilterConfig && cfg.ReporterConfig.CommonConfig.Output == o.ReporterConfig.Output && cfg.ReporterConfig.CommonConfig.Color == o.ReporterConfig.Color
+  }
+
+func NewCSVDatabaseCommand$1$1$1 returns (err)
+  props C16 C13 C08
+  requires @streams len(streams) == 1 && o != nil && csvDatabase != nil
+  dyncall 1 csv.CSVDatabaseCmd
+  modifies *
+  modifies ghost(cbLen, cbErr, cbNode, cbStop, cbRet, cbLineNo, cbLine, cbHeader, cbElems, cbNElems, scRd, scPos, privLo, evOf, accKey, accP, accN, accH, bufSink, bufSticky, sinkFailed, sinkPend, prLen, prSink, prArg, prArgs, csvLen, csvW, csvN, csvRow, tnodes, tdepth, tmax, tmapOf, jlen, tvLen, tv, tseg, tvSet, procLen, procTime, procSrc, lastOpen, cfgRd)
+  ghost before dyncall 1 {
+    assert @streams [C16] #arg0 == streams[0]
+    assert @wiring [C16 C13] #arg1.ParserConfig == o.ParserConfig && #arg1.ReporterConfig == o.ReporterConfig
+  }
+
+func NewCSVDatabaseCommand$1$1 returns (err)
+  props C16 C08
+  requires @loaded o != nil && cu.WithFileReaders != nil
+  dyncall 1 csv.withFileReaders
+  modifies *
+  modifies ghost(cbLen, cbErr, cbNode, cbStop, cbRet, cbLineNo, cbLine, cbHeader, cbElems, cbNElems, scRd, scPos, privLo, evOf, accKey, accP, accN, accH, bufSink, bufSticky, sinkFailed, sinkPend, prLen, prSink, prArg, prArgs, csvLen, csvW, csvN, csvRow, tnodes, tdepth, tmax, tmapOf, jlen, tvLen, tv, tseg, tvSet, procLen, procTime, procSrc, lastOpen, cfgRd)
+  ghost before dyncall 1 {
+    assert @files [C16] len(#arg0) == 1 && #arg0[0] == o.GlobalConfig.DbFileName
+  }
+
+func NewCSVDatabaseResolvedCommand$1$1 returns (err)
+  props C16 C08
+  requires @loaded o != nil && cu.WithFileReaders != nil
+  dyncall 1 csv.withFileReaders
+  modifies *
+  modifies ghost(cbLen, cbErr, cbNode, cbStop, cbRet, cbLineNo, cbLine, cbHeader, cbElems, cbNElems, scRd, scPos, privLo, evOf, accKey, accP, accN, accH, bufSink, bufSticky, sinkFailed, sinkPend, prLen, prSink, prArg, prArgs, csvLen, csvW, csvN, csvRow, tnodes, tdepth, tmax, tmapOf, jlen, tvLen, tv, tseg, tvSet, procLen, procTime, procSrc, lastOpen, cfgRd)
+  ghost before dyncall 1 {
+    assert @files [C16] len(#arg0) == 1 && #arg0[0] == o.GlobalConfig.DbFileName
+  }
+
+// csv database-resolved calls the exported command function directly
+func NewCSVDatabaseResolvedCommand$1$1$1 returns (err)
+  props C16 C11 C13 C08
+  requires @streams len(streams) == 1 && streams[0] != nil && o != nil
+  requires @sink o.ReporterConfig.Output != nil && !typeis(o.ReporterConfig.Output, "*bufio.Writer") && !typeis(o.ReporterConfig.Output, "*encoding/csv.Writer")
+  modifies *
+  modifies ghost(cbLen, cbErr, cbNode, cbStop, cbRet, cbLineNo, cbLine, cbHeader, cbElems, cbNElems, scRd, scPos, privLo, evOf, accKey, accP, accN, accH, bufSink, bufSticky, sinkFailed, sinkPend, prLen, prSink, prArg, prArgs, csvLen, csvW, csvN, csvRow, tnodes, tdepth, tmax, tmapOf, jlen, tvLen, tv, tseg, tvSet, procLen, procTime, procSrc, lastOpen, cfgRd)
+  ghost before call 1 CSVDatabaseResolved {
+    assert @wiring [C16 C11 C13] #arg0 == streams[0] && #arg1.ParserConfig == o.ParserConfig && #arg1.ReporterConfig == o.ReporterConfig && #arg1.ResolverConfig == o.ResolverConfig
+  }
+
 @*/
